@@ -23,7 +23,7 @@ def examples(tier):
 
 
 def strategy(tier):
-    return gen_store.case(CLASSES, WEIGHTS, max_ops=40, macros=5, extra=4)
+    return gen_store.case(CLASSES, WEIGHTS, max_ops=40, macros=5, extra=7)
 
 
 class ConservationOracle(Oracle):
